@@ -74,7 +74,83 @@ fn gen_tgt(rng: &mut Rng, len: usize) -> V {
     }
 }
 
+/// Round 2: a walk laid out explicitly over ids that collide under bit tricks (`k`, `k+32`, `k+64`,
+/// `k+128`, `k+256` — same residue mod 32 / 64, same or neighbouring 64-bit word), in a vector of
+/// length 33..300; the walk ends in `none`, in a self-reference (not at the start), in a back edge
+/// (rho) or back at the start; the other entries are random.
+fn gen_collide(rng: &mut Rng, emit: &mut dyn FnMut(String)) {
+    let len = match rng.below(6) {
+        0 => 33 + rng.below(8),
+        1 => 63 + rng.below(6),
+        2 => 96 + rng.below(40),
+        3 => 255 + rng.below(46),
+        _ => 33 + rng.below(268),
+    };
+    // distinct ids of the walk
+    let mut walk: Vec<usize> = Vec::new();
+    let push = |walk: &mut Vec<usize>, x: usize| {
+        if x < len && !walk.contains(&x) { walk.push(x); }
+    };
+    let start = rng.below(len);
+    push(&mut walk, start);
+    let groups = 1 + rng.below(3);
+    for _ in 0..groups {
+        let k = rng.below(len);
+        let mut g: Vec<usize> = vec![k];
+        for d in [32usize, 64, 96, 128, 256] {
+            if rng.chance(2, 3) { g.push(k + d); }
+            if k >= d && rng.chance(1, 3) { g.push(k - d); }
+        }
+        rng.shuffle(&mut g);
+        for x in g {
+            // a few unrelated vertices in between
+            if rng.chance(1, 3) { let y = rng.below(len); push(&mut walk, y); }
+            push(&mut walk, x);
+        }
+    }
+    for _ in 0..rng.below(4) { let y = rng.below(len); push(&mut walk, y); }
+    let mut pred: Vec<Option<usize>> = (0..len)
+        .map(|i| match rng.below(8) { 0 => None, 1 => Some(i), _ => Some(rng.below(len)) })
+        .collect();
+    for w in walk.windows(2) {
+        pred[w[0]] = Some(w[1]);
+    }
+    let last = *walk.last().unwrap();
+    let end_kind = rng.below(5);
+    pred[last] = match end_kind {
+        0 => None,
+        1 => if walk.len() > 1 { Some(last) } else { None },   // self-reference, not at the start
+        2 => Some(walk[rng.below(walk.len())]),                 // rho: back into the walk
+        3 => Some(start),                                       // cycle through the start
+        _ => pred[last],                                        // whatever the random filling says
+    };
+    let p = show_pred(&pred);
+    // targets: the last vertex, one in the middle, one off the walk, predicates on the entry
+    let tgt = match rng.below(8) {
+        0 | 1 | 2 => V::L(vec![V::atom("eq"), V::u(last)]),
+        3 => V::L(vec![V::atom("eq"), V::u(walk[walk.len() / 2])]),
+        4 => V::L(vec![V::atom("eq"), V::u(rng.below(len + 1))]),
+        5 => V::atom("prednone"),
+        6 => V::L(vec![V::atom("predeq"), V::u(last)]),
+        _ => V::atom("never"),
+    };
+    if let V::L(xs) = &tgt {
+        if xs[0] == V::atom("eq") && rng.chance(1, 2) {
+            emit(format!("pt_search {p} {start} {}", xs[1]));
+            return;
+        }
+    }
+    emit(format!("pt_search_by {p} {start} {tgt}"));
+}
+
 pub fn gen(rng: &mut Rng, thorough: bool, emit: &mut dyn FnMut(String)) {
+    // (0) round 2: colliding ids on long walks — in the stress tier ONLY these
+    if crate::stress() {
+        emit("pt_search [1 2 34 none 0 0 0 0 0 0 0 0 0 0 0 0 0 0 0 0 0 0 0 0 0 0 0 0 0 0 0 0 0 0 3] 0 3".to_string());
+        for _ in 0..40_000 { gen_collide(rng, emit); }
+        return;
+    }
+    for _ in 0..(if thorough { 20_000 } else { 3_000 }) { gen_collide(rng, emit); }
     // (1) exhaustive: every predecessor vector of length <= L (entries none | in range),
     //     every start, every equality target (incl. one absent id) + `prednone`.
     //     (6^5 + ... vectors: 5 is cheap enough for both tiers, DESIGN.md §6 C19)
